@@ -523,7 +523,11 @@ func (m *mux) newChannel(chanType string, direction channelDirection, extraData 
 		mux:                m,
 		packetPool:         make(map[uint32][]byte),
 	}
-	m.chanList.add(ch)
+	if !m.chanList.add(ch) {
+		// The mux loop has exited; nothing will ever close this channel, so
+		// do it now to let users of the channel see the end of the connection.
+		ch.close()
+	}
 	return ch
 }
 
